@@ -36,7 +36,7 @@ theorem volume_short_eq_long (a : VolSpec) (h : a.wf = true) : parseVolume a.ren
     by_cases h2 : byteLen tgt.render ≤ 2
     · simp [h2]
     · simp only [h2, if_false, true_and]
-      rw [scan_seg_end tgt ht, populate_target_only tgt ht]
+      rw [scan_seg_end tgt ht {} (Or.inl rfl), populate_target_only tgt ht]
       simp [populateType, isFilePath]
   | some s =>
     have hsne := Seg.render_ne_nil s hs
@@ -52,17 +52,17 @@ theorem volume_short_eq_long (a : VolSpec) (h : a.wf = true) : parseVolume a.ren
     by_cases hfe : fl = []
     · subst hfe
       simp only [VolSpec.render, if_true, List.append_nil, List.cons_append, List.append_assoc]
-      rw [scan_seg_colon s hs, populate_source s hs]
+      rw [scan_seg_colon s hs _ {} (Or.inl rfl), populate_source s hs]
       simp only []
-      rw [scan_seg_end tgt ht, populate_target true _ hsne tgt ht]
+      rw [scan_seg_end tgt ht { source := s.render } (Or.inr rfl), populate_target true _ hsne tgt ht]
       simp only [Option.map_some, VolSpec.long, List.foldl_nil, populateType, isFilePath_render s hs]
       simp
     · have hfl' : ∀ f ∈ fl, f.wf = true := by simpa [List.all_eq_true] using hfl
       have hrne : renderFlags fl ≠ [] := by simpa [hfe] using hne
       simp only [VolSpec.render, hfe, if_false, List.append_assoc, List.cons_append]
-      rw [scan_seg_colon s hs, populate_source s hs]
+      rw [scan_seg_colon s hs _ {} (Or.inl rfl), populate_source s hs]
       simp only []
-      rw [scan_seg_colon tgt ht, populate_target false _ hsne tgt ht]
+      rw [scan_seg_colon tgt ht _ { source := s.render } (Or.inr rfl), populate_target false _ hsne tgt ht]
       simp only []
       rw [scan_plain _ _ _ _ (renderFlags_clean fl hfl')]
       have hnd : isWindowsDrive ([] ++ renderFlags fl) NUL = false := isWindowsDrive_of_ne _ _ NUL_ne_colon
@@ -125,7 +125,7 @@ theorem volume_reject_empty_section (g : Seg) (hg : g.wf = true) (rest : Str) :
     omega
   have hlen0 : byteLen (g.render ++ ':' :: ':' :: rest) ≠ 0 := by omega
   simp only [parseVolume, hlen0, hlen, if_false, List.append_assoc, List.cons_append]
-  rw [scan_seg_colon g hg, populate_source g hg]
+  rw [scan_seg_colon g hg _ {} (Or.inl rfl), populate_source g hg]
   simp only []
   rw [scan_empty_section ':' (Or.inl rfl)]
   rfl
@@ -143,34 +143,39 @@ theorem volume_reject_trailing_colon (s t : Seg) (hs : s.wf = true) (ht : t.wf =
   unfold parseVolume
   rw [if_neg hlen0, if_neg hlen]
   simp only [List.append_assoc, List.cons_append, List.nil_append]
-  rw [scan_seg_colon s hs, populate_source s hs]
+  rw [scan_seg_colon s hs _ {} (Or.inl rfl), populate_source s hs]
   simp only []
-  rw [scan_seg_colon t ht, populate_target false _ hsne t ht]
+  rw [scan_seg_colon t ht _ { source := s.render } (Or.inr rfl), populate_target false _ hsne t ht]
   simp only []
   rw [scan_empty_section NUL (Or.inr rfl)]
   rfl
 
-/-- more than three sections are rejected (`SRC:TGT:X:…`), whatever follows -/
-theorem volume_reject_too_many_colons (s t x : Seg) (hs : s.wf = true) (ht : t.wf = true) (hx : x.wf = true) (rest : Str) :
-    parseVolume (s.render ++ ':' :: t.render ++ ':' :: x.render ++ ':' :: rest) = none := by
+/-- more than three sections are rejected (`SRC:TGT:X:…`) for every non-empty colon-free `X` — a single letter
+included, since the repair of the drive-letter rule — whatever follows -/
+theorem volume_reject_too_many_colons (s t : Seg) (hs : s.wf = true) (ht : t.wf = true)
+    (x : Str) (hxne : x ≠ []) (hx : clean x = true) (rest : Str) :
+    parseVolume (s.render ++ ':' :: t.render ++ ':' :: x ++ ':' :: rest) = none := by
   have hsne := Seg.render_ne_nil s hs
   have htne := Seg.render_ne_nil t ht
-  have hxne := Seg.render_ne_nil x hx
-  have hlen : ¬ byteLen (s.render ++ ':' :: t.render ++ ':' :: x.render ++ ':' :: rest) ≤ 2 := by
-    have := byteLen_ge_length (s.render ++ ':' :: t.render ++ ':' :: x.render ++ ':' :: rest)
+  have hlen : ¬ byteLen (s.render ++ ':' :: t.render ++ ':' :: x ++ ':' :: rest) ≤ 2 := by
+    have := byteLen_ge_length (s.render ++ ':' :: t.render ++ ':' :: x ++ ':' :: rest)
     have h1 : 1 ≤ s.render.length := by cases hr : s.render with | nil => exact absurd hr hsne | cons _ _ => simp
     simp only [List.length_append, List.length_cons] at this
     omega
-  have hlen0 : byteLen (s.render ++ ':' :: t.render ++ ':' :: x.render ++ ':' :: rest) ≠ 0 := by omega
+  have hlen0 : byteLen (s.render ++ ':' :: t.render ++ ':' :: x ++ ':' :: rest) ≠ 0 := by omega
   unfold parseVolume
   rw [if_neg hlen0, if_neg hlen]
   simp only [List.append_assoc, List.cons_append]
-  rw [scan_seg_colon s hs, populate_source s hs]
+  rw [scan_seg_colon s hs _ {} (Or.inl rfl), populate_source s hs]
   simp only []
-  rw [scan_seg_colon t ht, populate_target false _ hsne t ht]
+  rw [scan_seg_colon t ht _ { source := s.render } (Or.inr rfl), populate_target false _ hsne t ht]
   simp only []
-  rw [scan_seg_colon x hx]
-  simp [populate, hxne, hsne, htne]
+  rw [scan_plain x _ [] _ ((clean_iff x).1 hx)]
+  have hne : ¬ ((':' : Char) = NUL) := by decide
+  simp [scan, populate, hxne, hsne, htne, hne]
+
+/-- the spec that used to slip through (`vol:/b:z:ro`, finding nearmiss-accepted:volumes:letter-section, now fixed) is rejected -/
+theorem volume_letter_section_rejected : parseVolume "vol:/b:z:ro".toList = none := by decide
 
 /-- non-vacuity of the rejection theorems -/
 example : parseVolume "vol::/b".toList = none ∧ parseVolume "vol:/b:".toList = none ∧ parseVolume "vol:/b:ro:rw".toList = none := by decide
@@ -340,6 +345,20 @@ theorem kv_list_eq_map_Labels (m : List (Str × Val))
   intro p _
   obtain ⟨k, e⟩ := p
   cases e <;> simp [mapEntry, entryValue, labelValue, sprint_str]
+
+/-- `extra_hosts`: the list form `["host=ip1,ip2", …]` and the mapping form `{host: [ip1, ip2], …}` decode to the same
+`HostsList` (or are rejected alike), for distinct `=`-free host names and comma-free addresses -/
+theorem kv_list_eq_map_HostsList (es : List (Str × List Str))
+    (hk : ∀ e ∈ es, ∀ x ∈ e.1, x ≠ '=')
+    (hips : ∀ e ∈ es, e.2 ≠ [] ∧ ∀ ip ∈ e.2, ∀ ch ∈ ip, ch ≠ ',')
+    (hnd : (es.map Prod.fst).Nodup) :
+    decodeHosts (.seq (es.map hostEntry)) = decodeHosts (.map (es.map hostMapEntry)) := by
+  simp [decodeHosts, hostsOfList_entries es [] hk hips hnd (by simp), hostsOfMap_entries]
+
+
+/-- non-vacuity: `["h=1.2.3.4,[::1]"]` and `{h: ["1.2.3.4", "[::1]"]}` both decode to `h ↦ [1.2.3.4, ::1]` -/
+example : decodeHosts (.seq [hostEntry ("h".toList, ["1.2.3.4".toList, "[::1]".toList])])
+    = some (.map [("h", .seq [.str "1.2.3.4", .str "::1"])]) := by rfl
 
 /-- non-vacuity: `["A=1", "B", "C="]` and `{A: 1, B: null, C: ""}` -/
 example : decodeMWE (.seq ([("A".toList, Val.int 1), ("B".toList, .null), ("C".toList, .str "")].map listEntry))
@@ -543,6 +562,29 @@ theorem transformPorts_idem (ign ign' : Bool) (v w : Val) (h : transformPorts ig
     · simp at h
     · simp at h
   | _ => simp [transformPorts] at h
+
+/-- `depends_on`: whatever the transformer returns is a fixed point of the transformer -/
+theorem transformDependsOn_idem (v w : Val) (h : transformDependsOn v = .ok w) : transformDependsOn w = .ok w := by
+  cases v with
+  | map m =>
+    simp only [transformDependsOn] at h
+    cases hm : dependsMap m with
+    | ok r =>
+      simp only [hm, Out.ok.injEq] at h
+      subst h
+      simp [transformDependsOn, dependsMap_of_DepOK r (DepOK_of_dependsMap m r hm)]
+    | err x => simp [hm] at h
+    | panic x => simp [hm] at h
+  | seq l =>
+    simp only [transformDependsOn] at h
+    cases hm : dependsList l [] with
+    | ok r =>
+      simp only [hm, Out.ok.injEq] at h
+      subst h
+      simp [transformDependsOn, dependsMap_of_DepOK r (DepOK_of_dependsList l [] r (by intro p hp; simp at hp) hm)]
+    | err x => simp [hm] at h
+    | panic x => simp [hm] at h
+  | _ => simp [transformDependsOn] at h
 
 /-! ## the table: which transformer runs where -/
 
